@@ -8,6 +8,7 @@ package main
 
 import (
 	"bufio"
+	"bytes"
 	"context"
 	"encoding/json"
 	"fmt"
@@ -15,8 +16,11 @@ import (
 	"log"
 	"math/rand"
 	"os"
+	"os/exec"
 	"path/filepath"
 	"strconv"
+	"strings"
+	"time"
 
 	"verifharness/enc"
 	"verifharness/mach"
@@ -105,7 +109,7 @@ func behaviours(spec *core.Spec, seqs [][]interface{}) interface{} {
 						outcome = "panicked"
 					}
 				}()
-				w, err = spec.Walk(context.Background(), st, []interface{}{enc.DeepCopy(m)}, &core.Control{Limit: 12}, nil)
+				w, err = spec.Walk(context.Background(), st, []interface{}{enc.DeepCopy(m)}, &core.Control{Limit: 100}, nil) // (the limit of core.DefaultControl, which cmd/msimple uses)
 			}()
 			_ = err
 			if w == nil {
@@ -409,7 +413,7 @@ var exportIn *os.File
 
 // merge adds what cmd/mcrew's GetSpec made of each exported YAML file (plain JSON written by the overlay driver) as one
 // more rendering of its case
-func merge(casesPath, getspecPath, outPath string) {
+func merge(casesPath, getspecPath, outPath, repr string) {
 	type step struct {
 		Outcome string                 `json:"outcome"`
 		Node    string                 `json:"node"`
@@ -447,7 +451,7 @@ func merge(casesPath, getspecPath, outPath string) {
 		var c map[string]interface{}
 		check(json.Unmarshal(sc.Bytes(), &c))
 		if r, have := by[int(c["id"].(float64))]; have && c["kind"] == "load" {
-			rep := O{"repr": "mcrew-getspec", "load": "", "compile": "", "behaviours": T{}}
+			rep := O{"repr": repr, "load": "", "compile": "", "behaviours": T{}}
 			if r.Err != "" {
 				rep["compile"] = "error"
 			} else {
@@ -477,10 +481,109 @@ func merge(casesPath, getspecPath, outPath string) {
 	f.Close()
 }
 
+// msimple: what the single-machine host cmd/msimple makes of each exported YAML file.  The binary (built from the tree
+// under test) is run once per message sequence with -r=false (emitted messages are printed, not fed back) and -d (the state
+// after every message is printed as "# next <state>"); its output is turned into the same records the mcrew GetSpec driver
+// writes.  The host reads the file with tools.ReadFileWithInlines and jsccast/yaml, compiles it with interpreters.Standard()
+// and walks with core.DefaultControl.
+func msimple(bin, dir, outPath string) {
+	in, err := os.Open(filepath.Join(dir, "getspec_in.ndjson"))
+	check(err)
+	defer in.Close()
+	f, err := os.Create(outPath)
+	check(err)
+	w := bufio.NewWriterSize(f, 1<<20)
+	e := json.NewEncoder(w)
+	e.SetEscapeHTML(false)
+	sc := bufio.NewScanner(in)
+	sc.Buffer(make([]byte, 1<<20), 1<<28)
+	for sc.Scan() {
+		var c struct {
+			Id   int             `json:"id"`
+			Name string          `json:"name"`
+			Seqs [][]interface{} `json:"seqs"`
+		}
+		check(json.Unmarshal(sc.Bytes(), &c))
+		if max, _ := strconv.Atoi(os.Getenv("MSIMPLE_MAX")); max > 0 && c.Id > max {
+			break // (a process per message sequence: the thorough tier gives the host the first MSIMPLE_MAX files)
+		}
+		res := O{"id": c.Id, "err": ""}
+		seqs := T{}
+		for _, ms := range c.Seqs {
+			var input bytes.Buffer
+			for _, m := range ms {
+				js, _ := json.Marshal(m)
+				input.Write(js)
+				input.WriteByte('\n')
+			}
+			ctx, cancel := context.WithTimeout(context.Background(), 60*time.Second)
+			cmd := exec.CommandContext(ctx, bin, "-s", filepath.Join(dir, "specs", c.Name+".yaml"), "-n", "start", "-b", "{}", "-r=false", "-d")
+			cmd.Stdin = &input
+			var stdout, stderr bytes.Buffer
+			cmd.Stdout, cmd.Stderr = &stdout, &stderr
+			rerr := cmd.Run()
+			cancel()
+			if rerr != nil {
+				// the host panics when the file does not load or compile
+				res["err"] = "failed: " + lastLine(stderr.String())
+				break
+			}
+			// one record per message: "# walked" opens it, "# next <state>" gives the state, other lines are emitted messages
+			steps := T{}
+			var cur O
+			flush := func() {
+				if cur != nil {
+					steps = append(steps, cur)
+				}
+			}
+			for _, line := range strings.Split(stdout.String(), "\n") {
+				switch {
+				case line == "# walked":
+					flush()
+					cur = O{"outcome": "returned", "none": true, "emitted": T{}}
+				case strings.HasPrefix(line, "# next "):
+					var st core.State
+					check(json.Unmarshal([]byte(strings.TrimPrefix(line, "# next ")), &st))
+					cur["none"], cur["node"], cur["bs"] = false, st.NodeName, map[string]interface{}(st.Bs)
+				case line == "" || strings.HasPrefix(line, "#") || strings.HasPrefix(line, "warning:"):
+				default:
+					var x interface{}
+					check(json.Unmarshal([]byte(line), &x))
+					cur["emitted"] = append(cur["emitted"].(T), x)
+				}
+			}
+			flush()
+			seqs = append(seqs, steps)
+		}
+		res["seqs"] = seqs
+		check(e.Encode(res))
+	}
+	w.Flush()
+	f.Close()
+}
+
+func lastLine(s string) string {
+	ls := strings.Split(strings.TrimSpace(s), "\n")
+	for _, l := range ls {
+		if strings.HasPrefix(l, "panic:") {
+			return l
+		}
+	}
+	return ls[len(ls)-1]
+}
+
 func main() {
 	log.SetOutput(io.Discard)
 	if os.Args[1] == "merge" {
-		merge(os.Args[2], os.Args[3], os.Args[4])
+		repr := "mcrew-getspec"
+		if len(os.Args) > 5 {
+			repr = os.Args[5]
+		}
+		merge(os.Args[2], os.Args[3], os.Args[4], repr)
+		return
+	}
+	if os.Args[1] == "msimple" {
+		msimple(os.Args[2], os.Args[3], os.Args[4])
 		return
 	}
 	n, _ := strconv.Atoi(os.Args[2])
